@@ -438,6 +438,20 @@ func C18(c *core.Ctx) {
 	c18Tags(c, a)
 	c18TagRule(c)
 	deadRulesAfterSkip(c, "C18-R7", "no validation rule is written after an unconditional validation.Skip")
+	// R8: the regime and the addons a combo, an extension or a tag is judged against travel in
+	// the context; a ValidateWithContext that validates what is below it without the context
+	// leaves those references unjudged
+	c.Rule("C18-R8", "ValidateWithContext methods pass their context on to every nested validation (shared with C10-R5)", 20)
+	{
+		sub := core.NewCtx("C10", c.Tier, c.Seed, c.P, c.VerifDir)
+		sub.Quiet = true
+		c10ContextPropagation(sub)
+		for _, o := range sub.Obligations() {
+			if o.Rule == "C10-R5" {
+				c.ObAt("C18-R8", o.Key, o.Pos, o.OK, o.Msg)
+			}
+		}
+	}
 	c18ComboRegime(c)
 	c18Exact(c)
 	c18Components(c)
